@@ -120,6 +120,8 @@ pub enum StatusPlan {
     Minimal,
     Full,
     Err,
+    /// like Minimal, with a favicon of this many characters (the answer can be made as long as a status string may be)
+    Favicon(usize),
 }
 
 #[derive(Clone, Debug)]
@@ -1116,6 +1118,13 @@ impl StatusAdapter for Scripted {
                 enforces_secure_chat: Some(true),
             })),
             StatusPlan::Err => Err(unavailable("status")),
+            StatusPlan::Favicon(n) => Ok(Some(ServerStatus {
+                version: ServerVersion { name: "Sim".into(), protocol: 769 },
+                players: None,
+                description: None,
+                favicon: Some("A".repeat(n)),
+                enforces_secure_chat: None,
+            })),
         }
     }
 }
@@ -1125,6 +1134,7 @@ pub fn expected_status_json(plan: &StatusPlan) -> Value {
     match plan {
         StatusPlan::None | StatusPlan::Err => Value::Null,
         StatusPlan::Minimal => json!({"version": {"name": "Sim", "protocol": 769}}),
+        StatusPlan::Favicon(n) => json!({"version": {"name": "Sim", "protocol": 769}, "favicon": "A".repeat(*n)}),
         StatusPlan::Full => json!({
             "version": {"name": "Sim 1.21", "protocol": 770},
             "players": {"online": 3, "max": 100, "sample": [{"name": "Not\"ch", "id": "069a79f4-44e9-4726-a5be-fca90e38aaf5"}]},
@@ -1652,6 +1662,55 @@ pub fn judge_in_company<S: Sync + serde::Serialize>(
         }
     });
     (runs.load(Ordering::Relaxed), busy.load(Ordering::Relaxed))
+}
+
+/// Status exchanges whose answer has every length around the places where the clientbound length prefix grows
+/// (127/128 and 16383/16384 bytes) and the longest a status string may have, under frame limits from tiny to the
+/// protocol's maximum (the limit is about frames the client sends). Returns (label, expected JSON, observation).
+pub fn status_size_sweep(thorough: bool) -> Vec<(String, Value, Obs)> {
+    let mut sizes: Vec<usize> = (40..=110).collect();
+    sizes.extend(16_280..=16_360);
+    sizes.extend([0, 1, 200, 5_000, 16_000, 20_000, 32_600]);
+    let limits: Vec<i32> = if thorough { vec![24, 64, 127, 128, 255, 10_000, 16_383, 16_384, 2_097_151, i32::MAX] } else { vec![24, 127, 10_000, 2_097_151] };
+    let mut jobs = vec![];
+    for max in &limits {
+        for n in &sizes {
+            if !thorough && *max != 10_000 && n % 3 != 0 {
+                continue;
+            }
+            jobs.push((*max, *n));
+        }
+    }
+    let out: Mutex<Vec<(String, Value, Obs)>> = Mutex::new(vec![]);
+    common::par_for(jobs.len(), |i| {
+        let (max, n) = jobs[i];
+        let mut c = Case::default();
+        c.cfg.max_packet_length = max;
+        c.adapters.status = StatusPlan::Favicon(n);
+        c.script = vec![
+            st(When::Idle, Act::Handshake { proto: 769, host: "s.example".into(), port: 25565, next: 1 }),
+            st(When::Idle, Act::StatusRequest),
+            st(When::Idle, Act::Ping(0x1234_5678_9abc_def0)),
+        ];
+        let obs = run(&c);
+        out.lock().unwrap().push((format!("status answer with a favicon of {n} characters, max_packet_length {max}"), expected_status_json(&StatusPlan::Favicon(n)), obs));
+    });
+    out.into_inner().unwrap()
+}
+
+/// what is wrong with a status exchange (None: one Status Response with the expected JSON, one Pong, nothing else)
+pub fn status_fault(want: &Value, obs: &Obs) -> Option<String> {
+    let kinds = obs.kinds();
+    if kinds != ["StatusResponse", "Pong"] || obs.garbled.is_some() || obs.partial_tail > 0 {
+        return Some(format!("answered with {kinds:?} (garbled {:?}, {} dangling bytes, result {:?})", obs.garbled, obs.partial_tail, obs.result));
+    }
+    let body = obs.packets.iter().find_map(|(_, p)| if let Pkt::StatusResponse { body } = p { serde_json::from_str::<Value>(body).ok() } else { None });
+    let pong = obs.packets.iter().find_map(|(_, p)| if let Pkt::Pong { payload } = p { Some(*payload) } else { None });
+    let covers = |got: &Value| want.as_object().is_some_and(|w| w.iter().all(|(k, v)| got.get(k) == Some(v)));
+    if !body.as_ref().is_some_and(covers) || pong != Some(0x1234_5678_9abc_def0) {
+        return Some(format!("status JSON {} bytes, pong {pong:?}", body.map(|b| b.to_string().len()).unwrap_or(0)));
+    }
+    None
 }
 
 /// Seeds whose first `R` unbiased-select draws realise every bit pattern.
